@@ -190,6 +190,7 @@ func Harness_C16_serve_gates() {
 type verifFilesT struct {
 	started, finished int
 	links             []string // topic (or user) each LinkAttachments call was for
+	finishFails       bool // the store cannot record the completed upload
 	gcMu              sync.Mutex
 	gcGrace           []time.Duration // now - olderThan of every DeleteUnused call
 	gcLimit           []int
@@ -200,6 +201,10 @@ var verifFiles *verifFilesT
 func (f *verifFilesT) StartUpload(fd *types.FileDef) error { f.started++; return nil }
 func (f *verifFilesT) FinishUpload(fd *types.FileDef, success bool, size int64) (*types.FileDef, error) {
 	f.finished++
+	if f.finishFails {
+		// like the adapters: no record comes back with the error
+		return nil, types.ErrInternal
+	}
 	return fd, nil
 }
 func (f *verifFilesT) Get(fid string) (*types.FileDef, error)                 { return nil, nil }
@@ -224,6 +229,12 @@ type verifUploadMedia struct {
 	verifMedia
 	uploads  int
 	received int64
+	deleted  []string
+}
+
+func (m *verifUploadMedia) Delete(locations []string) error {
+	m.deleted = append(m.deleted, locations...)
+	return nil
 }
 
 func (m *verifUploadMedia) Upload(fdef *types.FileDef, file io.ReadSeeker) (string, int64, error) {
@@ -303,6 +314,7 @@ func Harness_C16_receive_gates() {
 		fields["topic"] = topicField
 		order = append(order, "topic")
 	}
+	verifFiles.finishFails = verifNondetBool("recordingTheUploadFails")
 	big := verifNondetBool("oversized")
 	fileBytes := 100
 	if big {
@@ -330,7 +342,11 @@ func Harness_C16_receive_gates() {
 	} else if big {
 		verifAssert(mh.uploads == 0, "oversized-upload-refused")
 	}
-	if allowed {
+	if allowed && verifFiles.finishFails {
+		// the bytes were stored but the upload could not be recorded: reported, and the stored bytes are removed
+		verifAssert(w.code >= 500, "failed-upload-reported")
+		verifAssert(mh.uploads == 1 && len(mh.deleted) == 1, "failed-upload-leaves-no-stored-bytes")
+	} else if allowed {
 		verifAssert(mh.uploads == 1 && mh.received == int64(fileBytes), "authorised-upload-stored-byte-for-byte")
 		verifAssert(w.code == 200, "authorised-upload-acknowledged")
 	}
